@@ -45,7 +45,16 @@ pub enum Step {
     Take { h: u8 },
     Resize { n: u8 },
     /// prepare_cached / prepare_typed_cached on a held client; key = (query index, types index)
-    Prepare { h: u8, q: u8, t: u8, txn: bool },
+    /// `via`: 0 inherent methods, 1 the GenericClient trait, 2 a transaction started through
+    /// build_transaction() (with txn) / the trait on the transaction, 3 a nested transaction
+    Prepare {
+        h: u8,
+        q: u8,
+        t: u8,
+        txn: bool,
+        #[serde(default)]
+        via: u8,
+    },
     /// n prepare_cached calls for the same key in flight at once on one client
     PrepareJoin { h: u8, q: u8, t: u8, n: u8 },
     CacheClear { h: u8 },
@@ -573,7 +582,7 @@ async fn run_case(case: &Case, srv: Srv, out: &mut Out) {
                     }
                 }
             }
-            Step::Prepare { h, q, t, txn } => {
+            Step::Prepare { h, q, t, txn, via } => {
                 let Some(i) = pick(h, held.len()) else { continue };
                 let conn = held[i].conn;
                 let key = (q % 3, t % 3);
@@ -582,15 +591,51 @@ async fn run_case(case: &Case, srv: Srv, out: &mut Out) {
                 settle().await;
                 let before = lock(&srv).conns[conn].log.len();
                 let armed = lock(&srv).conns[conn].fail_next_query;
+                use deadpool_postgres::GenericClient;
+                out.labels.push(format!("prepare:via{}{}", via % 4, if txn { "-txn" } else { "" }));
                 let res = if txn {
                     let obj = &mut held[i].obj;
-                    match obj.transaction().await {
+                    let started = match via % 4 {
+                        2 => obj.build_transaction().start().await,
+                        1 => GenericClient::transaction(obj).await,
+                        _ => obj.transaction().await,
+                    };
+                    match started {
                         Err(e) => Err(e),
-                        Ok(tx) => {
-                            let r = if types.is_empty() { tx.prepare_cached(query).await } else { tx.prepare_typed_cached(query, &types).await };
+                        Ok(mut tx) => {
+                            let r = match via % 4 {
+                                1 => {
+                                    if types.is_empty() {
+                                        GenericClient::prepare_cached(&tx, query).await
+                                    } else {
+                                        GenericClient::prepare_typed_cached(&tx, query, &types).await
+                                    }
+                                }
+                                3 => match tx.transaction().await {
+                                    Err(e) => Err(e),
+                                    Ok(inner) => {
+                                        let r = if types.is_empty() { inner.prepare_cached(query).await } else { inner.prepare_typed_cached(query, &types).await };
+                                        drop(inner);
+                                        r
+                                    }
+                                },
+                                _ => {
+                                    if types.is_empty() {
+                                        tx.prepare_cached(query).await
+                                    } else {
+                                        tx.prepare_typed_cached(query, &types).await
+                                    }
+                                }
+                            };
                             drop(tx);
                             r
                         }
+                    }
+                } else if via % 4 == 1 {
+                    if types.is_empty() {
+                        GenericClient::prepare_cached(&held[i].obj, query).await
+                    } else {
+                        GenericClient::prepare_typed_cached(&held[i].obj, query, &types).await
                     }
                 } else if types.is_empty() {
                     held[i].obj.prepare_cached(query).await
@@ -836,7 +881,7 @@ fn step() -> BoxedStrategy<Step> {
         8 => any::<u8>().prop_map(|h| Step::Return { h }),
         1 => any::<u8>().prop_map(|h| Step::Take { h }),
         1 => (0u8..4).prop_map(|n| Step::Resize { n }),
-        10 => (any::<u8>(), 0u8..3, 0u8..3, prop::bool::weighted(0.2)).prop_map(|(h, q, t, txn)| Step::Prepare { h, q, t, txn }),
+        10 => (any::<u8>(), 0u8..3, 0u8..3, prop::bool::weighted(0.25), 0u8..4).prop_map(|(h, q, t, txn, via)| Step::Prepare { h, q, t, txn, via }),
         2 => (any::<u8>(), 0u8..3, 0u8..3, any::<u8>()).prop_map(|(h, q, t, n)| Step::PrepareJoin { h, q, t, n }),
         1 => any::<u8>().prop_map(|h| Step::CacheClear { h }),
         1 => (any::<u8>(), 0u8..3, 0u8..3).prop_map(|(h, q, t)| Step::CacheRemove { h, q, t }),
